@@ -340,6 +340,37 @@ int main(int argc, char ** argv) {
                 trip_array(t, n, vals);
             }
         }
+        /* long ASCII arrays: 254..1000 elements (item and parameter accounting beyond 255) */
+        {
+            static const int counts[] = {254, 255, 256, 257, 300, 512, 513, 1000};
+            static tc_t TB;
+            static int32_t big_in[1024], big_out[1024];
+            int ci;
+            tc_init(&TB, cmds, 8192, 8);
+            for (ci = 0; ci < 8; ci++) {
+                char * msg; int n = counts[ci], k; size_t ml;
+                if (!MC_CASE()) continue;
+                mc_case_tag = "long-array"; mc_case_i[0] = n;
+                for (k = 0; k < n; k++) big_in[k] = (k % 2 ? -k : k) * 3;
+                /* emit directly (no handler needed): a query context is emulated by a fresh output counter */
+                tr_reset(); TB.ctx.output_count = 0; TB.ctx.first_output = TRUE;
+                SCPI_ResultArrayInt32(&TB.ctx, big_in, (size_t) n, SCPI_FORMAT_ASCII);
+                n_trips++;
+                msg = (char *) malloc(OUTN + 8);
+                memcpy(msg, "Y ", 2); memcpy(msg + 2, OUT, OUTN); ml = OUTN + 2; msg[ml++] = '\n';
+                {   /* decode through a handler of its own */
+                    lex_state_t * ls = &TB.ctx.param_list.lex_state; size_t got = 0; scpi_bool_t ok;
+                    tr_reset();
+                    ls->buffer = msg + 2; ls->pos = msg + 2; ls->len = (int) (ml - 3); TB.ctx.input_count = 0; TB.ctx.cmd_error = FALSE;
+                    ok = SCPI_ParamArrayInt32(&TB.ctx, big_out, 1024, &got, SCPI_FORMAT_ASCII, TRUE);
+                    if (!ok || tc_nerr || got != (size_t) n || memcmp(big_in, big_out, sizeof (int32_t) * (size_t) n))
+                        mc_viol("c07/value/long-array", "ASCII int32 array of %d elements: %d bytes emitted, decoder ok=%d elements=%d errors=%d (first %d)", n, (int) (ml - 3), (int) ok, (int) got, tc_nerr, tc_nerr ? tc_errs[0] : 0);
+                    else n_nontrivial++;
+                }
+                free(msg);
+            }
+            tc_free(&TB);
+        }
         if (mc_shard == 0) {
             mc_sample("uint16 0xBEEF in base 2 -> #B1011111011101111 -> SCPI_ParamUInt32 -> 0xBEEF");
             mc_sample("text [a\"';\\n] -> \"a\"\"';\\n\" -> SCPI_ParamCopyText -> same text");
